@@ -8,46 +8,46 @@ CONSTANT Inst
 Key(f) == [n \in Addrs |-> IF n \in DOMAIN f THEN f[n] ELSE "-"]
 
 MCAddrs ==
-  CASE Inst = "c4"    -> {"a", "a2", "b", "c", "p", "q"}
+  CASE Inst = "c4"    -> {"a", "a2", "b", "c", "d", "p", "q"}
     [] Inst = "c6"    -> {"x1", "x2", "y", "m", "l", "a", "z"}
-    [] Inst = "joint" -> {"a", "b", "p", "z"}
+    [] Inst \in {"joint", "jointM"} -> {"a", "b", "p", "z"}
     [] Inst = "jointL" -> {"a", "a2", "b", "p", "z"}
 
 MCCFamOf ==
   CASE Inst = "c4"    -> [n \in MCAddrs |-> "v4"]
     [] Inst = "c6"    -> [n \in MCAddrs |-> IF n = "a" THEN "v4" ELSE IF n = "z" THEN "none" ELSE "v6"]   \* m = ::ffff:<a>
-    [] Inst \in {"joint", "jointL"} -> [n \in MCAddrs |-> IF n = "z" THEN "none" ELSE "v4"]
+    [] Inst \in {"joint", "jointM", "jointL"} -> [n \in MCAddrs |-> IF n = "z" THEN "none" ELSE "v4"]
 MCFamOf == [n \in MCAddrs |-> IF MCCFamOf[n] = "none" THEN "v6" ELSE MCCFamOf[n]]
 
 MCCNP ==
   CASE Inst = "c4"    -> << [mem |-> {"p"}, cap |-> 1], [mem |-> {"p", "q"}, cap |-> 2] >>
     [] Inst = "c6"    -> << [mem |-> {"l"}, cap |-> 3] >>
-    [] Inst \in {"joint", "jointL"} -> << [mem |-> {"p"}, cap |-> 1] >>
+    [] Inst \in {"joint", "jointM", "jointL"} -> << [mem |-> {"p"}, cap |-> 1] >>
 
 MCCLevels ==
-  CASE Inst = "c4" ->      \* configured order kept by the code: here the WIDE subnet first
-         [v4 |-> << [key |-> Key([a |-> "4w1", a2 |-> "4w1", b |-> "4w1", c |-> "4w2", p |-> "4wp", q |-> "4wp"]), cap |-> 3],
-                    [key |-> Key([a |-> "4n1", a2 |-> "4n1", b |-> "4n2", c |-> "4n3", p |-> "4np", q |-> "4nq"]), cap |-> 2] >>,
+  CASE Inst = "c4" ->      \* narrow subnet first: a refusal by the wide one leaves a zero entry of the narrow one behind
+         [v4 |-> << [key |-> Key([a |-> "4n1", a2 |-> "4n1", b |-> "4n2", c |-> "4n3", d |-> "4n4", p |-> "4np", q |-> "4nq"]), cap |-> 2],
+                    [key |-> Key([a |-> "4w1", a2 |-> "4w1", b |-> "4w1", c |-> "4w2", d |-> "4w1", p |-> "4wp", q |-> "4wp"]), cap |-> 3] >>,
           v6 |-> << >>]
-    [] Inst = "c6" ->      \* the default shape: /56 then /48
+    [] Inst = "c6" ->      \* configured order is kept by the code (no sort): here the WIDE subnet first
          [v4 |-> << [key |-> Key([a |-> "4n1"]), cap |-> 1] >>,
-          v6 |-> << [key |-> Key([x1 |-> "6n1", x2 |-> "6n2", y |-> "6n3", m |-> "6nm", l |-> "6nl"]), cap |-> 2],
-                    [key |-> Key([x1 |-> "6w1", x2 |-> "6w1", y |-> "6w2", m |-> "6wm", l |-> "6wl"]), cap |-> 3] >>]
-    [] Inst \in {"joint", "jointL"} ->
+          v6 |-> << [key |-> Key([x1 |-> "6w1", x2 |-> "6w1", y |-> "6w2", m |-> "6wm", l |-> "6wl"]), cap |-> 3],
+                    [key |-> Key([x1 |-> "6n1", x2 |-> "6n2", y |-> "6n3", m |-> "6nm", l |-> "6nl"]), cap |-> 2] >>]
+    [] Inst \in {"joint", "jointM", "jointL"} ->
          [v4 |-> << [key |-> Key([a |-> "4n1", a2 |-> "4n1", b |-> "4n2", p |-> "4np"]), cap |-> 2],
                     [key |-> Key([a |-> "4w1", a2 |-> "4w1", b |-> "4w1", p |-> "4wp"]), cap |-> 3] >>,
           v6 |-> << >>]
 
 \* rate side: nothing for the pure connLimiter instances
-Joint == Inst \in {"joint", "jointL"}
+Joint == Inst \in {"joint", "jointM", "jointL"}
 MCNP == IF Joint THEN << [mem |-> {"p"}, rate |-> 0, burst |-> 0] >> ELSE << >>
 MCLevels ==
   IF Joint
-  THEN [v4 |-> << [key |-> Key([a |-> "r4n1", a2 |-> "r4n1", b |-> "r4n2", p |-> "r4np"]), rate |-> IF Inst = "joint" THEN 2 ELSE 1,
-                   burst |-> 3] >>,
+  THEN [v4 |-> << [key |-> Key([a |-> "r4n1", a2 |-> "r4n1", b |-> "r4n2", p |-> "r4np"]), rate |-> IF Inst = "jointL" THEN 1 ELSE 2,
+                   burst |-> IF Inst = "joint" THEN 2 ELSE 3] >>,
         v6 |-> << [key |-> Key([z |-> "r6z"]), rate |-> 2, burst |-> 1] >>]
   ELSE [v4 |-> << >>, v6 |-> << >>]
-MCGlob == IF Joint THEN [rate |-> 2, burst |-> 4] ELSE [rate |-> 0, burst |-> 0]
+MCGlob == IF Joint THEN [rate |-> 2, burst |-> IF Inst = "joint" THEN 3 ELSE 4] ELSE [rate |-> 0, burst |-> 0]
 MCGrace == IF Joint THEN 1 ELSE 0
 
 Conf == [inst |-> Inst, U |-> U, grace |-> MCGrace, glob |-> MCGlob, fam |-> MCFamOf, cfam |-> MCCFamOf,
@@ -56,7 +56,9 @@ Conf == [inst |-> Inst, U |-> U, grace |-> MCGrace, glob |-> MCGlob, fam |-> MCF
          cnp |-> [i \in 1..Len(MCCNP) |-> [mem |-> MCCNP[i].mem, cap |-> MCCNP[i].cap]],
          c4 |-> MCCLevels.v4, c6 |-> MCCLevels.v6, cbids |-> CBIds]
 
-St == [s |-> s, npc |-> npc, subc |-> subc, ent |-> ent, live |-> live]
+\* compact JSON projection (rate side as in C03rate_MC; counts of zero are implied for subnets not listed in ent)
+St == [g |-> s.g, np |-> s.np, bk |-> [b \in AllBIds |-> IF s.bk[b].pres THEN <<s.bk[b].def, s.bk[b].ttl>> ELSE <<>>],
+       npc |-> npc, subc |-> [b \in ent |-> subc[b]], live |-> live]
 EmitEdge == PrintT(<<"VFEDGE", ToJson([s |-> St, op |-> op', t |-> St'])>>)
 MCInit == CInit /\ PrintT(<<"VFINIT", ToJson(St)>>) /\ PrintT(<<"VFCONF", ToJson(Conf)>>)
 =============================================================================
